@@ -396,6 +396,10 @@ def run(ctx):
     from drivers import system
     sys_failures, sys_records, sys_lives = system.run_system(ctx)
     failures.extend(sys_failures)
+    # ---------------- (d) calls in flight together on one event loop (spec/OneLoop.tla)
+    from drivers import oneloop
+    ol_failures, ol_cases = oneloop.run_oneloop(ctx)
+    failures.extend(ol_failures)
     ctx.trace_records = ntraces_a + len(souts) + sys_records
     nontrivial = sum(1 for it in items if any(o["base"] != "none" for o in it[2]["ops"])) + \
         sum(1 for s in sitems if len({x["w"] for x in s[2]["sched"]}) > 1)
@@ -403,7 +407,7 @@ def run(ctx):
     samples += [{"schedule": [(x["w"], x["s"]) for x in souts[k]["case"]["sched"]], "config": souts[k]["case"]["cfg"],
                  "model_predicts": souts[k]["case"]["res"], "observed": souts[k]["obs"]} for k in (0, len(souts) // 2)]
     return engine.report(
-        ctx, failures=failures, matchers=MATCHERS, evaluations=sum(len(o) for o in outs) + len(souts) + sys_records,
+        ctx, failures=failures, matchers=MATCHERS, evaluations=sum(len(o) for o in outs) + len(souts) + sys_records + ol_cases,
         distinct_nontrivial=nontrivial,
         rule="(a) all histories of <= MaxLen operations over {content, changes, normalize, dry, bad, ext} x {none, current, stale, "
              "future} from an absent or present file (spec/CasRegister.tla), through WriteTool.execute and (content/ext/bad only) "
@@ -413,10 +417,13 @@ def run(ctx):
              "none / match / stale, validate, eject, seal, normalize, external edit / removal): every 2-step life of a one-item document "
              "and TLC-simulated lives of 7 (quick) / 11 (thorough) steps, judged step by step by spec/Trace_System.tla",
         samples=samples, exhaustive=True,
-        descr=lambda fl, clause: ("system_life=%s observed=%s" % (json.dumps(fl["case"]["system_life"], ensure_ascii=True)[-700:], json.dumps(fl["obs"].get("note", ""))[:200]))
+        descr=lambda fl, clause: ("one_loop=%s observed=%s" % (json.dumps(fl["case"]["one_loop"]), json.dumps(fl["obs"])[:300])) if "one_loop" in fl["case"] else ("system_life=%s observed=%s" % (json.dumps(fl["case"]["system_life"], ensure_ascii=True)[-700:], json.dumps(fl["obs"].get("note", ""))[:200]))
         if "system_life" in fl["case"] else ("history=%s" % json.dumps(fl["case"].get("history"))[:200]) if "history" in fl["case"]
         else "config=%s schedule=%s" % (fl["case"]["cfg"], [(x["w"], x["s"]) for x in fl["case"]["sched"]]),
-        assumptions=["system lives: for base_hash=match the harness hashes the bytes the file holds before the call; a refused call must "
+        assumptions=["one loop (d): the calls of a case (spec/OneLoop.tla) are started together with asyncio.gather on one loop and one WriteTool; "
+                     "os.replace on the target waits up to 0.15 s for the other calls to reach their install step; the observed results and "
+                     "final values must equal the outcome of some serial order",
+                     "system lives: for base_hash=match the harness hashes the bytes the file holds before the call; a refused call must "
                      "carry E_HASH; the hash an accepted write returns must be the hash of the bytes it installed; what `octave seal -o f` / "
                      "`octave normalize -o f` / octave_write wrote is what octave_eject(canonical) shows; Seal clauses compare verify_seal on "
                      "the file with the specification's sealed-content flag",
@@ -427,4 +434,4 @@ def run(ctx):
                      "snapshots compare path, type, bytes and mode of the whole sandbox tree (timestamps excluded)"],
         extra_coverage={"schedule_configs": [c["name"] for c in cfgs], "window_found_by_TLC_in_faithful_model": window_in_model,
                         "atomic_install_variant_clean": not r_atomic.violated, "histories": ntraces_a, "schedules": len(souts),
-                        "system_lives": sys_lives, "system_steps": sys_records})
+                        "system_lives": sys_lives, "system_steps": sys_records, "one_loop_cases": ol_cases})
